@@ -57,6 +57,24 @@ func (r *RAT[K, V]) Find(k K, predicate func(V) bool) (V, bool) {
 	return zero, false
 }
 
+// Recent returns the written values of a key, most recent first.
+func (r *RAT[K, V]) Recent(k K) []V {
+	idx, exists := r.idx[k]
+	if !exists {
+		return nil
+	}
+	res := make([]V, 0, r.length)
+	for i := idx; i >= 0; i-- {
+		res = append(res, r.values[k][i])
+	}
+	if r.wrapped[k] {
+		for i := r.length - 1; i > idx; i-- {
+			res = append(res, r.values[k][i])
+		}
+	}
+	return res
+}
+
 func (r *RAT[K, V]) Write(k K, value V) {
 	idx, exists := r.idx[k]
 	if !exists {
